@@ -733,15 +733,26 @@ func main() {
 			writeJSON(rpath, rf)
 			// confirm in a fresh process
 			res, crashed, _, _ := runReplay(rpath, false, 0)
+			unstable := false
 			if crashed || res.Class != v.Class || res.Key != v.Key {
-				got := "crash"
-				if res != nil {
-					got = res.Class + "|" + res.Key
+				// The library itself has one unseedable source of nondeterminism, Go's
+				// map iteration order (the order in which proto and thrift emit map
+				// entries): a violation whose shape depends on it may replay as another
+				// class, or only on some attempts.  Any violation on replay confirms
+				// it; silence on eight attempts in a row does not.
+				for attempt := 0; attempt < 8 && (crashed || res == nil || res.Class == ""); attempt++ {
+					res, crashed, _, _ = runReplay(rpath, false, 0)
 				}
-				die("violation %s of run %d did not reproduce from its tape in a fresh process (got %q): nondeterministic harness", ck, v.Index, got)
+				if crashed || res == nil || res.Class == "" {
+					die("violation %s of run %d did not reproduce from its tape in a fresh process in 9 attempts: nondeterministic harness", ck, v.Index)
+				}
+				unstable = true
+				rf.Note = fmt.Sprintf("first seen as %s|%s; the class depends on Go's map iteration order inside the library under test, so a replay may show a sibling class", v.Class, v.Key)
+				rf.Class, rf.Key, rf.Detail = res.Class, res.Key, res.Detail
+				res.Note = rf.Note
 			}
 			// minimise (in-process, budget-capped), then confirm the minimised tape
-			if os.Getenv("VERIF_NO_SHRINK") == "" {
+			if os.Getenv("VERIF_NO_SHRINK") == "" && !unstable {
 				min, crashed, _, _ := runReplay(rpath, true, 600)
 				if !crashed && min != nil && min.Class == v.Class && min.Key == v.Key && len(min.Tape) <= len(rf.Tape) {
 					min.Note = fmt.Sprintf("minimised from a tape of %d draws to %d", len(rf.Tape), len(min.Tape))
